@@ -89,7 +89,7 @@ func Render(d Doc) string {
 		"dotenv: " + p("root.dotenv", "['.env']"),
 		"vars: " + p("root.vars", "{GV: "+p("var.value", "lit")+", GS: {sh: "+p("var.sh", "'echo x'")+"}, GR: {ref: "+p("var.ref", ".GV")+"}, GM: {map: "+p("var.map", "{a: 1}")+"}}"),
 		"env: " + p("root.env", "{GE: e}"),
-		"includes: " + p("root.includes", "{inc: "+p("include.value", "{taskfile: "+p("include.taskfile", "./inc")+", vars: "+p("include.vars", "{IV: x}")+", aliases: "+p("include.aliases", "[ia]")+", excludes: "+p("include.excludes", "[zz]")+", dir: "+p("include.dir", ".")+"}")+"}"),
+		"includes: " + p("root.includes", "{inc: "+p("include.value", "{taskfile: "+p("include.taskfile", "./inc")+", vars: "+p("include.vars", "{IV: x}")+", aliases: "+p("include.aliases", "[ia]")+", excludes: "+p("include.excludes", "[default, zz]")+", dir: "+p("include.dir", ".")+"}")+"}"),
 		"tasks:",
 		"  main: " + p("task.value", taskMap),
 		"  other: {cmds: [echo other]}",
@@ -142,7 +142,7 @@ func Exercise(idx int, content string) Result {
 	os.WriteFile(filepath.Join(dir, "Taskfile.yml"), []byte(content), 0o644)
 	os.WriteFile(filepath.Join(dir, ".env"), []byte("DE=1\n"), 0o644)
 	os.MkdirAll(filepath.Join(dir, "inc"), 0o755)
-	os.WriteFile(filepath.Join(dir, "inc", "Taskfile.yml"), []byte("version: '3'\ntasks:\n  it: {cmds: [echo it]}\n"), 0o644)
+	os.WriteFile(filepath.Join(dir, "inc", "Taskfile.yml"), []byte("version: '3'\ntasks:\n  it: {cmds: [echo it]}\n  default: {cmds: [echo dflt]}\n"), 0o644)
 	var out, errb bytes.Buffer
 	e := task.NewExecutor(task.WithDir(dir), task.WithStdout(&out), task.WithStderr(&errb), task.WithDry(true), task.WithVersionCheck(true),
 		task.WithTempDir(task.TempDir{Remote: filepath.Join(dir, ".task"), Fingerprint: filepath.Join(dir, ".task")}))
@@ -325,7 +325,7 @@ func cliExit(content string, args ...string) (int, string) {
 	os.WriteFile(filepath.Join(dir, "Taskfile.yml"), []byte(content), 0o644)
 	os.WriteFile(filepath.Join(dir, ".env"), []byte("DE=1\n"), 0o644)
 	os.MkdirAll(filepath.Join(dir, "inc"), 0o755)
-	os.WriteFile(filepath.Join(dir, "inc", "Taskfile.yml"), []byte("version: '3'\ntasks:\n  it: {cmds: [echo it]}\n"), 0o644)
+	os.WriteFile(filepath.Join(dir, "inc", "Taskfile.yml"), []byte("version: '3'\ntasks:\n  it: {cmds: [echo it]}\n  default: {cmds: [echo dflt]}\n"), 0o644)
 	ctx, cancel := context.WithTimeout(context.Background(), 20*time.Second)
 	defer cancel()
 	cmd := exec.CommandContext(ctx, TaskBin, args...)
